@@ -434,7 +434,54 @@ def rule_file_bounds(ctx):
     ctx.covered('R07.11', 'comparisons of position + length with the file size are non-strict (built-in positive control)', n, floor=1)
 
 
+def rule_partial_reads(ctx):
+    """R07.12: fread(buf, 1, n, f) returns the number of BYTES read, anything from 0 to n. Where the archive readers read a
+    block byte-wise (element size 1, count not the literal 1) and then use the buffer, the result has to be compared with
+    the count that was requested - a test against 0 or 1 lets a file that ends inside the block through with the rest of
+    the buffer uninitialised. (Reads of one element of the full size return 0 or 1 and are covered by R07.3.)"""
+    # Only the index scan reads a file of unknown length. reb_input_fields has the same byte-wise header read with a
+    # `< 1` test, but it is entered only at offsets the index scan accepted (the 64 header bytes were already read in
+    # full there) or on a complete in-memory copy, so a short read cannot be produced against it: observation, no report.
+    n = 0
+    for cfile in ('simulationarchive.c',):
+        tu = cfront.load_tu(cfile)
+        for fname in sorted(tu.funcs):
+            fn = tu.func(fname)
+            b = cfront.body(fn)
+            if b is None:
+                continue
+            for e in walk(b):
+                # result stored: v = fread(...), v += fread(...), T v = fread(...)
+                tgt = call = None
+                if is_assign(e) and e['opcode'] in ('=', '+='):
+                    r0 = strip(e['inner'][1], casts=True)
+                    if r0.get('kind') == 'CallExpr' and callee_name(r0) == 'fread':
+                        tgt, call = render(e['inner'][0]), r0
+                if e.get('kind') == 'VarDecl' and 'init' in e:
+                    init = [c for c in e.get('inner', []) if c.get('kind') not in ('FullComment',)]
+                    r0 = strip(init[-1], casts=True) if init else {}
+                    if r0.get('kind') == 'CallExpr' and callee_name(r0) == 'fread':
+                        tgt, call = e['name'], r0
+                if call is None:
+                    continue
+                a = call_args(call)
+                size_txt, cnt_txt = render(a[1]).replace(' ', ''), render(a[2]).replace(' ', '')
+                if size_txt not in ('1', 'sizeof(char)', '(sizeof(char))') or cnt_txt in ('1',):
+                    continue
+                n += 1
+                tests = [x for x in walk(b) if x.get('kind') == 'BinaryOperator' and x.get('opcode') in ('<', '<=', '==', '!=', '>', '>=')
+                         and tgt in (render(x['inner'][0]), render(x['inner'][1]))]
+                cnt_plain = cnt_txt.strip('()')
+                good = [x for x in tests if cnt_plain in (render(x['inner'][0]).replace(' ', '').strip('()'), render(x['inner'][1]).replace(' ', '').strip('()'))]
+                if tests and not good:
+                    ctx.report('R07.12', '%s:partial:%s' % (fname, tgt), 'src/%s:%s %s' % (cfile, line_of(call), fname),
+                               'fread(.., 1, %s, ..) returns a byte count, but its result %s is only tested as %s: a file that ends inside the block passes and the unread part of the buffer is used uninitialised'
+                               % (cnt_txt, tgt, ', '.join(render(x) for x in tests[:2])))
+    ctx.covered('R07.12', 'byte-wise reads whose result is stored are compared with the requested byte count', n, floor=1)
+
+
 def run(ctx):
+    rule_partial_reads(ctx)
     rule_file_bounds(ctx)
     rule_python_messages(ctx)
     from . import alloczero
